@@ -120,7 +120,7 @@ class Ctx:
             "obligations": gate["obligations"], "discharged": gate["discharged"],
             "checker_cmd": gate["checker_cmd"],
             "trusted_base": TRUSTED_BASE_COMMON + gate.get("trusted_extra", []),
-            "theorems": gate["theorems"], "print_assumptions": gate["assumptions"],
+            "theorems": gate["theorems"], "print_assumptions": gate["assumptions"], "coqchk": gate.get("coqchk", "not run (thorough tier only)"),
             "evaluations": evaluations, "distinct_nontrivial": distinct_nontrivial,
             "rule": rule, "samples": samples[:8],
             "known_findings_seen": self.known_seen,
@@ -244,6 +244,15 @@ def proof_gate(ctx, extra_files=()):
             gate["print_assumptions_count"] = printed
             if closed != printed:
                 problems.append("Print Assumptions: %d closed of %d printed" % (closed, printed))
+    if ok and not problems and ctx.thorough() and os.environ.get("VERIF_NO_COQCHK") != "1":
+        # independent re-check of the compiled theory and everything it depends on
+        p = run(["coqchk", "-silent", "-o", "-Q", ".", "Mk", "Mk.Properties.%s" % ctx.prop], cwd=COQ, timeout=3600)
+        chk = (p.stdout + p.stderr).decode(errors="replace")
+        summary = chk[chk.find("CONTEXT SUMMARY"):] if "CONTEXT SUMMARY" in chk else chk[-2000:]
+        gate["coqchk"] = " ".join(summary.split())
+        gate["checker_cmd"] += " && coqchk -silent -o -Q coq Mk Mk.Properties.%s" % ctx.prop
+        if p.returncode != 0 or "Axioms: <none>" not in gate["coqchk"]:
+            problems.append("coqchk: %s" % gate["coqchk"][:1500])
     if problems:
         gate["ok"] = False
         gate["discharged"] = 0
